@@ -17,10 +17,25 @@ use serde_json::{json, Value};
 
 use crate::framework::*;
 
+/// A value whose `close()` panics when armed (the documented "the guard panicked" case: the
+/// slot's fields are then dropped from the entry, nothing else may go wrong).
+#[derive(Default)]
+pub struct Bomb(pub bool);
+impl metrique::CloseValue for Bomb {
+    type Closed = u64;
+    fn close(self) -> u64 {
+        if self.0 {
+            std::panic::panic_any("harness: the slot value's close() panics");
+        }
+        0
+    }
+}
+
 #[metrics]
 #[derive(Default)]
 pub struct Sub1 {
     v1: u64,
+    bomb: Bomb,
 }
 
 #[metrics]
@@ -52,6 +67,8 @@ pub enum UK {
     ReopenResult { slot: u64, was_none: bool },
     WaitData { slot: u64, got: Option<u64> },
     WaitCancelled { slot: u64 },
+    /// the guard's value was armed to panic in close(): its drop unwinds out of SlotGuard::drop
+    SlotBomb { obj: u64 },
 }
 
 #[derive(Clone, Debug)]
@@ -137,6 +154,16 @@ fn do_drop(log: &ULog, table: &Table, op: &Value) {
             _ => {}
         }
         detsim::yield_point();
+    }
+    if jb(op, "bomb", false) {
+        if let Obj::Slot1(g) = &mut o {
+            g.bomb.0 = true;
+            log.log(UK::SlotBomb { obj: id });
+            log.log(UK::DropBegin { obj: id });
+            let _ = std::panic::catch_unwind(std::panic::AssertUnwindSafe(move || drop(o)));
+            log.log(UK::DropEnd { obj: id });
+            return;
+        }
     }
     if jb(op, "forget", false) {
         log.log(UK::Forget { obj: id });
@@ -239,16 +266,19 @@ fn uow_main(plan: &Value, log: ULog) {
                     // value can no longer reach the entry) but a flush guard entrusted to it
                     // afterwards still has to be held until the guard is dropped
                     let overwrite = jb(op, "overwrite", false);
-                    let holds = mode == "wait" || redelay > 0;
+                    let legacy = jb(op, "legacy", false) && ju(op, "slot", 1) == 1;
+                    let holds = (mode == "wait" && !legacy) || redelay > 0;
                     let kind: &'static str = match (overwrite, holds, mode) {
                         (true, true, _) => "orphan_flush",
                         (true, false, _) => "orphan",
-                        (false, _, "wait") => "slot_wait",
+                        (false, true, "wait") => "slot_wait",
                         (false, true, _) => "slot_delay",
                         _ => "slot_discard",
                     };
                     if ju(op, "slot", 1) == 1 {
-                        if let Some(mut g) = o.s1.open(m) {
+                        #[allow(deprecated)]
+                        let opened = if jb(op, "legacy", false) { drop(m); o.s1.open_slot() } else { o.s1.open(m) };
+                        if let Some(mut g) = opened {
                             if overwrite {
                                 o.s1 = Slot::default();
                             }
@@ -350,10 +380,11 @@ struct Model {
     appends: Vec<(u64, usize, Option<u64>, Option<u64>, Option<u64>, Option<u64>)>,
     last_set: Option<u64>,
     slot_last: BTreeMap<u64, u64>,
+    bombed: BTreeSet<u64>,
 }
 
 fn model(h: &[UEv]) -> Model {
-    let mut m = Model { kinds: BTreeMap::new(), drop_inv: BTreeMap::new(), drop_ret: BTreeMap::new(), forgotten: BTreeSet::new(), appends: vec![], last_set: None, slot_last: BTreeMap::new() };
+    let mut m = Model { kinds: BTreeMap::new(), drop_inv: BTreeMap::new(), drop_ret: BTreeMap::new(), forgotten: BTreeSet::new(), appends: vec![], last_set: None, slot_last: BTreeMap::new(), bombed: BTreeSet::new() };
     for e in h {
         match &e.k {
             UK::Create { obj, kind } => {
@@ -372,6 +403,9 @@ fn model(h: &[UEv]) -> Model {
             UK::Set { v } => m.last_set = Some(*v),
             UK::SlotSet { obj, v } => {
                 m.slot_last.insert(*obj, *v);
+            }
+            UK::SlotBomb { obj } => {
+                m.bombed.insert(*obj);
             }
             _ => {}
         }
@@ -500,6 +534,19 @@ pub fn check_c13(h: &[UEv]) -> Option<Violation> {
         let want = m.slot_last.get(g).copied().unwrap_or(0);
         let inv = m.drop_inv.get(g).copied();
         let ret = m.drop_ret.get(g).copied();
+        if m.bombed.contains(g) {
+            // its close() panicked: there is no value; everything else must be as usual
+            if present.is_some() {
+                return Some(Violation::new("slot_value_from_nowhere", format!("the entry contains a value for slot guard {g} although closing that value panicked")));
+            }
+            if matches!(*kind, "slot_wait" | "slot_delay") && !force_before && !m.forgotten.contains(g) {
+                match inv {
+                    Some(i) if i < a => {}
+                    _ => return Some(Violation::new("entry_did_not_wait_for_slot", format!("slot guard {g} was opened in wait mode and no force-flush guard was dropped, but the entry was appended at #{a} before the guard's drop began"))),
+                }
+            }
+            continue;
+        }
         if let Some(p) = present {
             match inv {
                 Some(i) if i < a => {}
@@ -606,6 +653,10 @@ pub fn gen_uow(rng: &mut Rng, slots: bool) -> Value {
                     if rng.chance(0.2) {
                         o["redelay"] = json!(1 + rng.below(2));
                     }
+                    if slot == 1 && rng.chance(0.15) {
+                        // the deprecated way of opening a slot (no mode; delay_flush may follow)
+                        o["legacy"] = json!(true);
+                    }
                     let overwrite = rng.chance(0.08);
                     if overwrite {
                         o["overwrite"] = json!(true);
@@ -660,13 +711,20 @@ pub fn gen_uow(rng: &mut Rng, slots: bool) -> Value {
             op["in_task"] = json!(true);
         } else if op.get("forget").is_none() && rng.chance(0.1) {
             op["in_panic"] = json!(true);
+        } else if is_slot && id % 2 == 0 && op.get("forget").is_none() && rng.chance(0.1) {
+            // the slot value's close() panics while the guard is dropped
+            op["bomb"] = json!(true);
         }
         let mut who = rng.below(nd + 1);
         let is_slot1 = is_slot && id % 2 == 0;
-        if is_slot1 && slots && style != 0 && !any_overwrite && op.get("forget").is_none() && op.get("in_panic").is_none() && rng.chance(0.35) {
+        if is_slot1 && slots && style != 0 && !any_overwrite && op.get("forget").is_none() && op.get("in_panic").is_none() && op.get("bomb").is_none() && rng.chance(0.35) {
             // the owner waits for this guard's data before it is released: another thread must drop it
             who = rng.below(nd);
             main_ops.insert(owner_pos, json!({"op":"wait_data","cancel": rng.chance(0.35)}));
+            if rng.chance(0.3) {
+                // ... and asks again (a completed wait is repeatable)
+                main_ops.insert(owner_pos + 1, json!({"op":"wait_data"}));
+            }
         }
         if who == nd {
             main_ops.push(op);
